@@ -189,6 +189,9 @@ def scenarios():
             # two rows that are exactly equal in quantity and price (a declaration is a list, not a set)
             'dup-sl': {'sl': [[1, 0.05], [1, 0.05]], 'tp': [[1, 0.01], [1, 0.05]]},
             'dup-tp': {'sl': [[2, 0.05]], 'tp': [[1, 0.05], [1, 0.05]]},
+            # rows of different size: the bigger part nearer / farther (quantity order against price order, both ways)
+            'uneven': {'sl': [[0.5, 0.03], [1.5, 0.05]], 'tp': [[0.5, 0.01], [1.5, 0.05]]},
+            'uneven-rev': {'sl': [[1.5, 0.03], [0.5, 0.05]], 'tp': [[1.5, 0.01], [0.5, 0.05]]},
             # a declaration withdrawn altogether: the empty list
             'sl-withdrawn': {'sl': [], 'tp': 'keep'},
             'tp-withdrawn': {'sl': 'keep', 'tp': []},
